@@ -19,6 +19,13 @@
   gi = state of key i by exact `get`, li = state of the entry answering `x.<name i>` (`lookup`);
   state = `-` (none) | `F` (SERVFAIL placeholder) | `L<id>` (serving data <id>).
 
+    daemon <history>        the same history run against the real `quandaryd` process (SIGHUP,
+                            UDP): per step `<a1>,…,<an>`, ai = state of the entry that answers
+                            the name of key i itself (longest match). Model column: the signal
+                            loop `loopRun codeShape` with the plumbing extracted from run.rs.
+    daemonskip <history>    a daemon history the harness could not synchronise: `discarded`, no
+                            constraint
+
   Model column: `QV.Model.Reload.daemonStep` on the catalog model. Spec column: the per-zone
   rule `QV.Spec.Reload.specStep` folded over each key's own view (`viewOf`), longest match by
   `QV.Spec.Catalog.specLookup`; `-` (no constraint) when the history violates the environment
@@ -152,6 +159,34 @@ def runSpec (keys : List (DName × Nat)) :
     let l := keys.map (fun k => specLookup m (xLabel :: k.1) k.2)
     (runSpec keys cur r).map (showStep cur l :: ·)
 
+/-- model column of `daemon`: what the server answers from after each step of the signal loop -/
+def runLoop (keys : List (DName × Nat)) : DState → List Step → List String
+  | _, [] => []
+  | st, s :: r =>
+    let st' := loopStep codeShape Cat.empty st s
+    let a := keys.map (fun k => (st'.served.bind (fun c => lookup c k.1 k.2)).map stateOf)
+    ",".intercalate (a.map showState) :: runLoop keys st' r
+
+open QV.Spec.Reload QV.Spec.Catalog in
+/-- spec column of `daemon`: the per-zone rule on each key's own view, then longest match -/
+def runSpecAnswering (keys : List (DName × Nat)) :
+    List (Option SZone) → List Step → Option (List String)
+  | _, [] => some []
+  | prev, s :: r =>
+    let views := keys.map (fun k => viewOf (k.2, foldName k.1) s)
+    let sound := (prev.zip views).all (fun pv =>
+      match pv.2 with
+      | .configured v => decide (MtimeSound pv.1 v)
+      | _ => true)
+    if !sound then none else
+    let cur := (prev.zip views).map (fun pv => specStep pv.1 pv.2)
+    let m : SMap SZone := (keys.zip cur).filterMap (fun kc =>
+      match kc.2 with
+      | some z => some ((kc.1.2, foldName kc.1.1), z)
+      | none => none)
+    let a := keys.map (fun k => specLookup m k.1 k.2)
+    (runSpecAnswering keys cur r).map (",".intercalate (a.map showState) :: ·)
+
 end Rl
 
 open Rl in
@@ -168,6 +203,18 @@ def reloadHandler : Handler := fun op args =>
         | none => "-"
       some (m, s)
     | none => some bad
+  | "daemon", [h] =>
+    let parts := h.splitOn "/"
+    match parts.mapM parseStep with
+    | some steps =>
+      let keys := dedup [] ((parts.flatMap zonesOf).map (fun zc => (zc.name, zc.cls)))
+      let m := "ok " ++ ";".intercalate (runLoop keys ⟨none, none⟩ steps)
+      let s := match runSpecAnswering keys (keys.map (fun _ => none)) steps with
+        | some rs => "ok " ++ ";".intercalate rs
+        | none => "-"
+      some (m, s)
+    | none => some bad
+  | "daemonskip", [_] => some ("discarded", "-")
   | _, _ => none
 
 end QV.Driver
